@@ -281,6 +281,20 @@ def execute(spec, ctx):
             mult = int(np.prod(dims))
             cell = np.array(res1.cell, float)
             ctx.count("aba_with_replicate_between")
+        # the B sites of the intermediate structure must be as unambiguous as the A sites were: in a tight cell a B pattern can
+        # also fit a mixed group (atoms of neighbouring sites / images) within the tolerance, and replacing THAT back legitimately
+        # lands elsewhere within O(atol)
+        if npat > 1 and "real" not in spec:
+            ctx.rng.reset(script)
+            preB = findcheck.call_find(ctx, res1, replace, atol, hints, with_quats=True)
+            PB = np.array(spec["replace"]["positions"], float).reshape(-1, 3)
+            for X in preB[1]:
+                if geom.kabsch(PB, np.asarray(X, float))[2].max() > atol / (2.0 * K * K):
+                    ctx.count("aba_borderline_occurrence_not_judged")
+                    return
+            if replcheck.overlapping([tuple(int(i) for i in t) for t in preB[0]]):
+                ctx.count("overlapping_occurrences_left_to_C07")
+                return
         # second step: B -> A on the result (all B's: none existed before, so exactly the k1 substituted sites)
         res2, k2 = _call_replace(ctx, res1, replace, search, atol, script, hints, fraction=1.0)
         if res2 is None:
